@@ -109,9 +109,20 @@ def replay_history(job):
                     H.apply_edit(fnet, fk, uop, {})
         foc = _run(fnet, op, fsvec)
         fres = H.result_digest(fnet)
+        # C07: the same calculation without the matrix-update / reuse option, on another fresh net
+        plain_oc, plain_cls = "", ""
+        if op.get("matrix") in ("update", "reuse"):
+            pnet, pk = H.NETS[job["net"]]()
+            for key in applied:
+                H.apply_knob(pnet, pk[key])
+            if uop is not None:
+                H.apply_edit(pnet, pk, uop, {})
+            plain_oc = _run(pnet, dict(op, matrix="plain"), None)
+            plain_cls = H.results_diff_class(net, pnet) if (oc == "returned" and plain_oc == "returned") else ""
         ev = {"op": "run", "mode": op["mode"], "oclass": oc, "before": before, "after": after,
               "resdig": resdig if oc == "returned" else "none",
               "fresh_oclass": foc, "fresh_resdig": fres if foc == "returned" else "none",
+              "plain_oclass": plain_oc, "plain_class": plain_cls,
               "key": hashlib.sha1(json.dumps([before, _opts(op), (hashlib.sha1(svec.tobytes()).hexdigest()
                                               if (svec is not None and op["mode"] == "heat") else "")],
                                              sort_keys=True).encode()).hexdigest()[:12],
@@ -169,6 +180,8 @@ def main():
     cc = collections.Counter()
     for f in fails:
         for cl in f["clauses"]:
+            if "matrix_option" in cl[0]:
+                continue            # neutrality of the matrix options is C07's property (same clauses, reported there)
             cc[cl[0]] += 1
             V.report(cl[0], cl[1], by_id[f["id"]], text="event=%s case=%s" % (f["ev"], f["id"]))
     runs = [e for c in cases for e in c["events"] if e["op"] == "run"]
